@@ -94,6 +94,7 @@ class World:
         self.pkbin = self.pk.key_to_bin()
         self.siglen = self.pk.get_signature_length()
         self.genesis = sha3(self.pkbin)
+        self.pk2bin = self.sk2.pub().key_to_bin()
         self._sig = {}
 
     def signed(self, prev: bytes, chash: bytes, foreign=False):
@@ -136,8 +137,15 @@ class Builder:
         self.content(c)
         return self.tok(self.w.signed(prev, sha3(c)), kind)
 
-    def gather(self, i, content=None):
-        self.ops.append(["g", i, None if content is None else self.content(content)])
+    def gather(self, i, content=None, share=None):
+        """share: the operation uses ONE Token object per pool entry for the whole case (as an application that
+        keeps token objects around does) and, besides offering it to the tree under test, shows it to the tree of
+        another owner (key `other_pk`): 'signer-first' before, 'signer-after' after, 'same' not at all"""
+        op = ["g", i, None if content is None else self.content(content)]
+        if share is not None:
+            assert content is None
+            op.append(share)
+        self.ops.append(op)
 
     def unser(self, data: bytes):
         self.ops.append(["u", data])
@@ -145,7 +153,7 @@ class Builder:
     def case(self):
         return {"pk": self.w.pkbin, "cap": self.cap, "depths": self.depths, "trace": self.trace, "mode": self.mode,
                 "label": self.label, "pool": list(self.pool), "contents": list(self.contents), "ops": list(self.ops),
-                "kinds": dict(self.kinds)}
+                "kinds": dict(self.kinds), "other_pk": self.w.pk2bin}
 
 
 def case_to_json(c):
@@ -153,7 +161,8 @@ def case_to_json(c):
             "label": c["label"], "pool": [[x.hex() for x in f] for f in c["pool"]],
             "contents": [x.hex() for x in c["contents"]],
             "ops": [[o[0], o[1].hex()] if o[0] == "u" else o for o in c["ops"]],
-            "kinds": {str(k): v for k, v in c.get("kinds", {}).items()}}
+            "kinds": {str(k): v for k, v in c.get("kinds", {}).items()},
+            "other_pk": c["other_pk"].hex() if c.get("other_pk") else None}
 
 
 def case_from_json(j):
@@ -161,7 +170,8 @@ def case_from_json(j):
             "label": j.get("label", ""), "pool": [tuple(bytes.fromhex(x) for x in f) for f in j["pool"]],
             "contents": [bytes.fromhex(x) for x in j["contents"]],
             "ops": [["u", bytes.fromhex(o[1])] if o[0] == "u" else list(o) for o in j["ops"]],
-            "kinds": {int(k): v for k, v in j.get("kinds", {}).items()}}
+            "kinds": {int(k): v for k, v in j.get("kinds", {}).items()},
+            "other_pk": bytes.fromhex(j["other_pk"]) if j.get("other_pk") else None}
 
 
 # ---------------------------------------------------------------------------- renaming ("short" rendering)
@@ -295,18 +305,45 @@ def run_impl(c):
         return observe_tree(t, Token)
 
     steps = []
+    shared = {}           # pool index -> the one Token object used by the sharing operations of this case
+    other = {}
+
+    def show_to_other_owner(tok):
+        """the same object is looked at by another owner's tree (and checked against that owner's key)"""
+        if not c.get("other_pk"):
+            return
+        try:
+            if "tree" not in other:
+                other["pk"] = ECCrypto().key_from_public_bin(c["other_pk"])
+                other["tree"] = TokenTree(public_key=other["pk"])
+            tok.verify(other["pk"])
+            other["tree"].gather_token(tok)
+            other["tree"].verify(tok)
+        except Exception:   # noqa: BLE001  the other owner's tree is not under test
+            pass
+
     for op in c["ops"]:
         offered = []
         if op[0] == "g":
             prev, chash, sig = c["pool"][op[1]]
             content = None if op[2] is None else c["contents"][op[2]]
-            tok = Token.from_database_tuple(prev, sig, chash, content)
+            share = op[3] if len(op) > 3 else None
+            if share is not None:
+                if op[1] not in shared:
+                    shared[op[1]] = Token.from_database_tuple(prev, sig, chash, None)
+                tok = shared[op[1]]
+                if share == "signer-first":
+                    show_to_other_owner(tok)
+            else:
+                tok = Token.from_database_tuple(prev, sig, chash, content)
             offered.append(((prev, chash, sig), tok.content))
             try:
                 r = tree.gather_token(tok)
                 res = ("none",) if r is None else ("tok", (r.previous_token_hash, r.content_hash, r.signature), r.content)
             except Exception as e:   # noqa: BLE001
                 res = ("raise", type(e).__name__, exn_code(e))
+            if share == "signer-after":
+                show_to_other_owner(tok)
         else:
             data = op[1]
             offered += [(f, None) for f in chunks_of(data, siglen)]
@@ -318,10 +355,11 @@ def run_impl(c):
         steps.append({"res": res, "offered": offered, "state": snap(tree)})
     fin = {"genesis": sha3(c["pk"]), "siglen": siglen}
     probes = []
-    for f in c["pool"]:
+    for pi, f in enumerate(c["pool"]):
         row = []
         for d in c["depths"]:
-            t = Token(f[0], content_hash=f[1], signature=f[2])
+            # the application's own object when it kept one, otherwise a fresh one
+            t = shared[pi] if pi in shared else Token(f[0], content_hash=f[1], signature=f[2])
             try:
                 v = tree.verify(t, d)
                 p = [((x.previous_token_hash, x.content_hash, x.signature), x.content) for x in tree.get_root_path(t, d)]
@@ -868,6 +906,54 @@ def gen_overflow(w, r, cap, n_dangling, mode="short", trace=True):
     return b.case()
 
 
+def gen_shared(w, r, nmax_all, nmax_rand, per_base, mode="short"):
+    """Token OBJECTS shared between trees of different owners: a foreign / forged / legit token object is shown
+    to the other owner's tree (which runs its own signature check on it) before or after the SAME object is offered
+    to the tree under test, at every position of the arrival sequence; with a validly signed child of the foreign
+    token, which must keep waiting."""
+    for n in range(0, nmax_rand + 1):
+        for ps in labelled_trees(n):
+            combos = []
+            for kind in ("foreign", "forged", "legit"):
+                for k in ([0] if kind == "foreign" else []) + list(range(1, n + 1)):
+                    for pos in range(0, n + 1):
+                        for how in ("first", "after"):
+                            combos.append((kind, k, pos, how))
+            if n > nmax_all:
+                combos = r.sample(combos, min(len(combos), per_base))
+            for (kind, k, pos, how) in combos:
+                b = Builder(w, mode=mode, label="tree%s shared %s@%d/%d %s" % (ps, kind, k, pos, how), depths=(1000, 1))
+                ix = build_tree(b, ps)
+                arr = [(ix[i], None) for i in range(1, n + 1)]
+                if kind == "foreign":
+                    prev = w.genesis if k == 0 else thash(b.pool[ix[k]])
+                    fo = w.signed(prev, sha3(b"shared-foreign"), foreign=True)
+                    fi = b.tok(fo, "foreign")
+                    ci = b.tok(w.signed(thash(fo), sha3(b"child-of-shared-foreign")), "dangling")
+                    extra = [(ci, None)]
+                elif kind == "forged":
+                    tgt = b.pool[ix[k]]
+                    sg = bytearray(tgt[2])
+                    sg[r.randrange(len(sg))] ^= 1 << r.randrange(8)
+                    fi = b.tok((tgt[0], tgt[1], bytes(sg)), "forged")
+                    extra = []
+                else:
+                    fi = ix[k]
+                    arr = [(i, m) for (i, m) in arr if i != fi]
+                    pos = min(pos, len(arr))
+                    extra = []
+                if how == "first":
+                    arr.insert(pos, (fi, "signer-first"))
+                else:
+                    arr.insert(pos, (fi, "signer-after"))
+                    arr.append((fi, "same"))
+                for x in extra:
+                    arr.insert(r.randrange(len(arr) + 1), x)
+                for (i, m) in arr:
+                    b.gather(i, None, share=m)
+                yield b.case()
+
+
 def gen_at_capacity(w, r, cap, mode="short"):
     """exactly `cap` tokens wait for their common parent: nothing may be dropped"""
     b = Builder(w, mode=mode, cap=cap, depths=(1000,), label="at capacity cap=%d" % cap)
@@ -1094,6 +1180,9 @@ def run(ctx):
         cs = gen_random_tree(w, r, n, 3 if ctx.quick else 5, trace=(n <= 16), tag=b"%d" % i)
         groups.append(list(range(len(cases), len(cases) + len(cs))))
         cases += cs
+    n_before = len(cases)
+    cases += list(gen_shared(w, r, 2, 3 if ctx.quick else 4, 6 if ctx.quick else 10))
+    n_shared = len(cases) - n_before
     for cap in ([0, 1, 3] if ctx.quick else [0, 1, 2, 3, 5, 8]):
         cases.append(gen_overflow(w, r, cap, cap + 3))
     cases.append(gen_overflow(w, r, 100, 103, trace=False))
@@ -1118,6 +1207,7 @@ def run(ctx):
         for v in SERIAL_VARIANTS:
             cases.append(gen_serial(ww, r, r.choice([2, 3]), "real", v))
         cases.append(gen_odd_widths(ww, r))
+        cases += list(gen_shared(ww, r, 1, 2, 4, mode="real"))
     # ---- run on the implementation + oracle (parallel), render for Coq
     with multiprocessing.Pool(12) as pool:
         results = pool.map(process_light, cases, chunksize=32)
@@ -1206,6 +1296,7 @@ def run(ctx):
                     "ops": [o if o[0] == "g" else ["u", len(o[1])] for o in c["ops"]][:12]})
     ctx.extra["case_mix"] = {"exhaustive_trees_x_orders": n_exh, "decorated": n_dec,
                              "random_tree_orders": sum(len(g) for g in groups),
+                             "token_objects_shared_with_another_owners_tree": n_shared,
                              "other (overflow, serialisation, real widths)": len(cases) - n_exh - n_dec - sum(len(g) for g in groups),
                              "total_operations": dist["ops"], "total_final_elements": dist["elements"],
                              "cases_that_used_the_waiting_area": dist["waited"],
@@ -1233,7 +1324,8 @@ def run(ctx):
         "every rooted tree shape with <= %d tokens x every arrival permutation (as labelled trees, exhaustive); the same with one "
         "disturbance (forged signature/body, foreign key, dangling, duplicate, right/wrong content, child of a forged/foreign token) "
         "at every/random positions; random trees of 7..40 tokens with disturbances in several arrival orders; waiting-area overflow "
-        "(capacity 0..8 and the real 100); unserialize_public on dumps (ordered, reversed, shuffled, duplicated, forged, foreign, ragged, "
+        "(capacity 0..8 and the real 100); the same Token object shown to another owner's tree before / after it is offered "
+        "(foreign, forged, legit; every position); unserialize_public on dumps (ordered, reversed, shuffled, duplicated, forged, foreign, ragged, "
         "cut, garbage, split, empty); real widths with two key types; non-trivial = at least one operation" % nmax)
     ctx.coverage["exhaustive"] = False
 
